@@ -2447,6 +2447,37 @@ pub fn run(ctx: &mut Ctx) {
                 }
             }
         }
+        // duplicates in the SHARDED regime with fewer worker threads than shards: the duplicate is
+        // detected by one worker in one attempt, and every later attempt must detect it again
+        // (per-attempt state such as the fast-stop flag must not leak from one attempt to the next)
+        {
+            let plan: Vec<(usize, usize, Combo)> = if thorough {
+                vec![
+                    (100_001, 1, default_func),
+                    (100_001, 1, combo_of("filter", "vec", "usize", "8", "box", 2, "fullsigs")),
+                    (200_001, 2, box_func),
+                    (200_001, 1, default_func),
+                ]
+            } else {
+                vec![(100_001, 1, default_func)]
+            };
+            for (j, (n, th, c)) in plan.into_iter().enumerate() {
+                for (dst, src) in [(n - 1, 0), (n / 2, n / 2 + 1)] {
+                    let mut s = base_spec(&c, n);
+                    s.dd = vec![(dst, src)];
+                    s.dups = true;
+                    s.th = th;
+                    s.seed = 40 + j as u64;
+                    s.vs = Vs::Zero;
+                    s.off = j % 2 == 1;
+                    ctx.stat("dup_sharded_few_threads");
+                    run_case(ctx, &s, &o);
+                    if !thorough {
+                        break;
+                    }
+                }
+            }
+        }
         // a transient MaxShardTooBig on the first attempt (sharded regime, unbalanced first seed):
         // the loop must rewind both lenders before the next attempt
         {
